@@ -135,6 +135,7 @@ pub fn run(rep: &mut Report) {
         run_cfg::<u32>(rep, c, if thorough { Limits::new(10, 10_000, 60.0) } else { Limits::new(7, 600, 3.0) }, false);
     }
     scripted_max_frame(rep);
+    scripted_many_exchanges(rep);
     for f in ["c05.stim-delivered", "c05.stim-reported", "c05.stim-dup-answered", "c05.stim-bad-length", "c05.stim-incomplete", "c05.followup-client-handshake", "c05.followup-server-handshake", "c17.version-adopted"] {
         rep.floor(f, 1);
     }
@@ -151,6 +152,57 @@ pub fn replay(config: &str, labels: &[String]) -> Result<Vec<String>, String> {
 /// One scripted extreme outside the enumerated stimulus space: the largest frame MQTT allows (Remaining Length
 /// 268 435 455) carrying a PUBLISH with an empty topic and a bound alias - resolving the alias makes the packet
 /// longer than any Remaining Length can express. Needs about 0.8 GB for a second or two.
+/// More incomplete exchanges than a 16-bit counter holds (only possible with 32-bit identifiers): a resumed
+/// session with 65 536 of them meets a peer Receive Maximum. Scripted, not enumerated; the verdict is the
+/// totality clause (no panic, no wrap: the vacancy is 0 and stays 0 until enough acknowledgements have come).
+fn scripted_many_exchanges(rep: &mut Report) {
+    use crate::conn::ConnBox;
+    use crate::refcodec::{self as rc, AckKind, PVal, Prop, AP};
+    use mqtt_protocol_core::mqtt::packet::{GenericPacket, GenericStorePacket};
+    let r = crate::util::guarded(|| {
+        let mut out: Vec<String> = vec![];
+        let ver = Ver::V5;
+        let mk = |q: u8, id: u32| -> GenericStorePacket<u32> {
+            match crate::bridge::build::<u32>(&AP::Publish { ver, dup: true, qos: q, retain: false, topic: b"a".to_vec(), pid: Some(id), props: vec![], payload: vec![] }).ok().unwrap() {
+                GenericPacket::V5_0Publish(x) => GenericStorePacket::V5_0Publish(x),
+                _ => unreachable!(),
+            }
+        };
+        let export: Vec<GenericStorePacket<u32>> = (1..=40_000u32).map(|i| mk(1, i)).chain((40_001..=65_536u32).map(|i| mk(2, i))).collect();
+        for as_server in [true, false] {
+            let mut c = ConnBox::<u32>::new(if as_server { RoleK::Server } else { RoleK::Client }, Some(ver));
+            c.restore_packets(export.clone());
+            let rm = vec![Prop { id: 0x21, val: PVal::U16(10) }];
+            if as_server {
+                let mut props = vec![Prop { id: 0x11, val: PVal::U32(100) }];
+                props.extend(rm);
+                let _ = c.recv_all(&rc::encode(&AP::Connect { ver, clean: false, keep_alive: 0, client_id: b"c".to_vec(), will: None, user: None, pass: None, props }, 4));
+                if c.vacancy() != Some(0) {
+                    out.push(format!("server, 65536 incomplete exchanges, client Receive Maximum 10: vacancy {:?} after the CONNECT", c.vacancy()));
+                }
+                let _ = c.send(crate::bridge::build::<u32>(&AP::Connack { ver, sp: true, code: 0, props: vec![] }).ok().unwrap());
+            } else {
+                let _ = c.send(crate::bridge::build::<u32>(&AP::Connect { ver, clean: false, keep_alive: 0, client_id: b"c".to_vec(), will: None, user: None, pass: None, props: vec![Prop { id: 0x11, val: PVal::U32(100) }] }).ok().unwrap());
+                let _ = c.recv_all(&rc::encode(&AP::Connack { ver, sp: true, code: 0, props: rm }, 4));
+            }
+            if c.vacancy() != Some(0) {
+                out.push(format!("{}: 65536 incomplete exchanges resumed under Receive Maximum 10: vacancy {:?}", if as_server { "server" } else { "client" }, c.vacancy()));
+            }
+            let _ = c.recv_all(&rc::encode(&AP::Ack { ver, kind: AckKind::Puback, pid: 1, code: None, props: None }, 4));
+        }
+        out
+    });
+    rep.count("c05.scripted-many-exchanges", 1);
+    match r {
+        Ok(v) => {
+            for d in v {
+                rep.violation(crate::report::Violation { rule: "c05.wrap".into(), sig: "c05.wrap|many-exchanges".into(), detail: d, config: "c05 scripted 65536 exchanges".into(), history: vec![serde_json::json!("u32 identifiers: restore 40000 PUBLISH QoS 1 + 25536 PUBLISH QoS 2; resume with peer Receive Maximum 10")] });
+            }
+        }
+        Err(m) => rep.violation(crate::report::Violation { rule: "panic".into(), sig: format!("panic|{}|many-exchanges", crate::util::panic_sig(&m)), detail: format!("65536 incomplete exchanges (32-bit identifiers) resumed under a peer Receive Maximum: panic: {m}"), config: "c05 scripted 65536 exchanges".into(), history: vec![serde_json::json!("u32 identifiers: restore 40000 PUBLISH QoS 1 + 25536 PUBLISH QoS 2; resume with peer Receive Maximum 10")] }),
+    }
+}
+
 fn scripted_max_frame(rep: &mut Report) {
     use crate::conn::{ConnBox, Ev};
     use crate::refcodec::{self as rc, PVal, Prop, AP};
